@@ -1148,5 +1148,48 @@ def rule_doc_all_lines(prog, rep, tier, entry="docstring_parsers.parse_docstring
                             "DOC-ALL-LINES", prog.owner_name(f), "description-from-one-line:next-of-lines",
                             "the description is the first line of the text that passes a test (%s): what the writer wrapped onto the following lines is dropped "
                             "when it is read back" % src(c, 70), loc(prog, c)))
+    # (continuation clause) the lines after the first are read whether or not anything stands behind the label on the first: the wrapper may
+    # break right behind the label (a first word too long for the rest of the line), and the description then starts on the second line.
+    # Flagged: a use of `lines[1:]` that stands under a truth test of a text cut out of `lines[0]` (`rest = lines[0].partition(",")[2].strip()`).
+    for f in (prog.all_functions() if package_wide else prog.reachable([start])):
+        own_assigns = [st for st in ast.walk(f.node) if isinstance(st, ast.Assign) and len(st.targets) == 1 and isinstance(st.targets[0], ast.Name)]
+        for s_ in ast.walk(f.node):
+            if not (isinstance(s_, ast.Subscript) and isinstance(s_.slice, ast.Slice) and isinstance(s_.slice.lower, ast.Constant) and s_.slice.lower.value == 1
+                    and s_.slice.upper is None and isinstance(s_.value, ast.Name)) or enclosing_fn(s_) is not f:
+                continue
+            seq = s_.value.id
+            # a sequence of lines: bound from a split into lines somewhere in the function
+            if not any(st.targets[0].id == seq and any(_is_line_split(x) for x in ast.walk(st.value)) for st in own_assigns):
+                continue
+            n += 1
+
+            def from_first(e, depth=0):
+                """e is (cut out of) the first line: `lines[0]`, a str method / index chain on it, or a name bound to one"""
+                if isinstance(e, ast.Subscript) and isinstance(e.value, ast.Name) and e.value.id == seq and isinstance(e.slice, ast.Constant) and e.slice.value == 0:
+                    return True
+                if isinstance(e, ast.Subscript):
+                    return from_first(e.value, depth)
+                if isinstance(e, ast.Call) and isinstance(e.func, ast.Attribute) and e.func.attr in ("strip", "lstrip", "rstrip", "partition", "rpartition", "split", "rsplit", "replace"):
+                    return from_first(e.func.value, depth)
+                if isinstance(e, ast.IfExp):
+                    return from_first(e.body, depth) or from_first(e.orelse, depth)
+                if isinstance(e, ast.Name) and depth < 3:
+                    defs = [st.value for st in own_assigns if st.targets[0].id == e.id]
+                    return bool(defs) and all(from_first(d, depth + 1) for d in defs)
+                return False
+            hit = None
+            for t, pol in expr_guards(s_, stop=f.node):
+                for atom, p_ in facts(t, pol):
+                    if p_ and from_first(atom):
+                        hit = atom
+            inst = "%s: %s" % (prog.owner_name(f), src(s_, 40))
+            if hit is not None:
+                rep.violation(Finding(
+                    "DOC-ALL-LINES", prog.owner_name(f), "continuation-only-behind-text",
+                    "%s is read only when %s - what is left of the first line - is not empty: where the wrapper breaks right behind the label (the first word does not fit "
+                    "on the rest of that line) the description starts on the second line and is read back empty, while the unwrapped text reads in full" % (src(s_, 40), src(hit, 40)),
+                    loc(prog, s_)))
+            else:
+                rep.holds("DOC-ALL-LINES", inst, loc(prog, s_), "the continuation lines are read whatever the first line holds behind its label")
     if n == 0:
         rep.ob("DOC-ALL-LINES", "no description is taken from a single scanned line", "holds", "", "entries are built from slices / joins of the scanned lines")
